@@ -546,7 +546,14 @@ Error:
         }
         struct video_s* video = self->video + i;
         camera_stop(video->source.camera);
+        // Wind down the workers this call already started (the sink and the
+        // filter start before the source): nothing else would ever tell them
+        // to stop, and stop/abort/shutdown would wait for them for ever.
+        video->source.is_stopping = 1;
+        video->filter.is_stopping = 1;
+        video->sink.is_stopping = 1;
     }
+    acquire_stop(self_);
     self->state = DeviceState_AwaitingConfiguration;
     return AcquireStatus_Error;
 }
